@@ -273,6 +273,19 @@ var c12ClassNames = [5]string{"L", "@", "h", "H", "n"}
 // ---- the built-in functions' own encoder, reached through the public API ----
 type c12Encoder struct {
 	fn vmcommon.BuiltinFunction
+	// the message bytes the previous call returned (kept by reference) and what they read then: a message must still parse
+	// to the same function and arguments after later calls ran
+	lastData []byte
+	lastStr  string
+	late     string // set when an earlier message changed under a later call
+}
+
+func (e *c12Encoder) remember(d []byte) string {
+	if e.lastData != nil && string(e.lastData) != e.lastStr && e.late == "" {
+		e.late = fmt.Sprintf("a message read %q when it was returned and %q after the next built-in call", e.lastStr, string(e.lastData))
+	}
+	e.lastData, e.lastStr = d, string(d)
+	return e.lastStr
 }
 
 func c12NewEncoder() *c12Encoder {
@@ -302,7 +315,7 @@ func (e *c12Encoder) crossShard(args [][]byte) (string, bool) {
 	if oa == nil || len(oa.OutputTransfers) != 1 {
 		return "", false
 	}
-	return string(oa.OutputTransfers[0].Data), true
+	return e.remember(oa.OutputTransfers[0].Data), true
 }
 
 // same-shard transfer to a contract with an attached call: data = fn + "@"hex(callArg)...
@@ -318,7 +331,7 @@ func (e *c12Encoder) attachedCall(f string, callArgs [][]byte) (string, bool) {
 	if oa == nil || len(oa.OutputTransfers) != 1 {
 		return "", false
 	}
-	return string(oa.OutputTransfers[0].Data), true
+	return e.remember(oa.OutputTransfers[0].Data), true
 }
 
 func c12RandBytes(c *ctx, n int) []byte {
@@ -414,6 +427,10 @@ func c12CallRoundTrip(c *ctx, enc *c12Encoder, f string, args [][]byte, class st
 	}()
 	c.note("rt/"+data, true)
 	c.count(class)
+	if enc.late != "" {
+		c.fail("monitor", "encoder-output-changed-later", "the built-in functions' message encoder: "+enc.late, map[string]string{"what": "message kept across calls"})
+		enc.late = ""
+	}
 	valid := f != "" && !strings.Contains(f, "@")
 	rp := map[string]string{"what": "call round trip", "function_hex": hex.EncodeToString([]byte(f)), "args_hex": c12HexList(args), "data_hex": hex.EncodeToString([]byte(data))}
 	if encOK && encOut != data {
